@@ -24,7 +24,9 @@ HostsU == {"a.com", "s.a.com", "t.s.a.com", "b.com", "a.co.uk", "s.a.co.uk", "b.
 \* punycode is a given (DESIGN.md section 3.1): the ASCII form of the IDN hosts of the universe
 Ascii(h) == CASE h = "bücher.a.com" -> "xn--bcher-kva.a.com" [] h = "пример.рф" -> "xn--e1afmkfd.xn--p1ai" [] OTHER -> h
 Ports == {"", "8080"}
-Rests == {"/", "", "/p?q=1", "?q=a@b.com", "#f@b.com", "/a.com/@x", "/p#f?x"}
+\* for the special schemes a backslash ends the authority like a slash does (WHATWG URL): text after it,
+\* an '@' included, belongs to the path
+Rests == {"/", "", "/p?q=1", "?q=a@b.com", "#f@b.com", "/a.com/@x", "/p#f?x", "\\@b.com/x", "\\p"}
 SrcHosts == {"a.com", "s.a.com", "b.com", "a.co.uk", "b.co.uk", "co.uk", "1.2.3.4", "localhost", "t.s.a.com"}
 Aliases == IF Big THEN {"script", "document", "websocket", "xhr", "foo"} ELSE {"script", "foo"}
 
